@@ -25,15 +25,15 @@ PENDING = {}
 
 CHECKS = {
  "C17": dict(engine="c17_guard", category="exploration", design_ref="DESIGN.md section 5",
-   text="Seeded deterministic simulation of guarded-allocation histories over a simulated MMU: mmap/munmap/mprotect/mlock/madvise/sysconf/posix_memalign/free/raise/abort are intercepted, mirrored into a model page table at the simulated page size (4K/16K/64K knob) and forwarded to the kernel, so that real load/store probes under a SIGSEGV handler and the model must both agree with the property after every operation, for all live allocations. Sizes sweep k*page+d around every page and canary boundary, near SIZE_MAX and unmappable sizes; (count,size) pairs sweep the overflow boundary; protection transitions in any order; per-byte per-bit canary tampering; free from every state with termination observed at raise()/abort(); mlock/madvise failing by policy. Runs earlier in the same process are replayed as a prelude when a violation depends on state carried inside the library.",
+   text="Seeded deterministic simulation of guarded-allocation histories over a simulated MMU: mmap/munmap/mprotect/mlock/madvise/sysconf/posix_memalign/free/raise/abort are intercepted, mirrored into a model page table at the simulated page size (4K/16K/64K knob) and forwarded to the kernel, so that real load/store probes under a SIGSEGV handler and the model must both agree with the property after every operation, for all live allocations. Sizes sweep k*page+d around every page and canary boundary, near SIZE_MAX and unmappable sizes; (count,size) pairs sweep the overflow boundary; protection transitions in any order; per-byte per-bit canary tampering; free from every state with termination observed at raise()/abort() (in a third of the runs the application ignores the signal, so raise() returns and only abort() counts); mlock/madvise failing by policy. Runs earlier in the same process are replayed as a prelude when a violation depends on state carried inside the library.",
    note="Trusted: the kernel's page protection (probes are real), the model page table, the scripted canary source. mprotect/mmap failures are not injected here. Two allocator build variants (mmap, posix_memalign). Sampling, not proof.",
    technique="deterministic simulation: simulated MMU/page table + real access probes + seeded operation histories"),
  "C19": dict(engine="c19_threads", category="exploration", design_ref="DESIGN.md section 7",
-   text="Seeded deterministic scheduling of 2-16 real threads racing through sodium_init() and a 45-operation workload over every API family (default, internal and scripted RNG; guarded allocation; password hashing; pthread-mutex and spinlock builds of the library lock). libsodium is compiled with the ThreadSanitizer compiler instrumentation but linked against our own runtime: every access to tracked memory (the whole writable data segment plus library-allocated blocks), every lock, atomic and wrapped system call is a point where the seeded scheduler (random walk, PCT, loser-first, coarse) may switch; exactly one thread runs at a time, so a plan replays exactly. An own vector-clock happens-before detector flags a race on any explored schedule in which two conflicting accesses are unordered by the program's own synchronisation. History oracles: init return values, initialisation work at the environment boundary equal to one sequential initialisation, every operation result equal to a sequential reference execution with per-thread entropy streams, no deadlock/livelock/assert/abort.",
+   text="Seeded deterministic scheduling of 2-16 real threads racing through sodium_init() and a 68-operation workload over every API family (default, internal and scripted RNG; guarded allocation; password hashing; pthread-mutex and spinlock builds of the library lock). libsodium is compiled with the ThreadSanitizer compiler instrumentation but linked against our own runtime: every access to tracked memory (the whole writable data segment plus library-allocated blocks), every lock, atomic and wrapped system call is a point where the seeded scheduler (random walk, PCT, loser-first, coarse) may switch; exactly one thread runs at a time, so a plan replays exactly; in half of the runs thread 0 is the process's main thread and the others are created when first scheduled; environment faults (sysconf failing in sodium_init, getrandom EINTR/EAGAIN, mlock refused) are per-thread deterministic. A violating schedule is reduced to an explicit list of deviations from run-to-completion order. An own vector-clock happens-before detector flags a race on any explored schedule in which two conflicting accesses are unordered by the program's own synchronisation. History oracles: init return values, initialisation work at the environment boundary equal to one sequential initialisation, every operation result equal to a sequential reference execution with per-thread entropy streams, no deadlock/livelock/assert/abort.",
    note="Trusted: clang's TSan instrumentation pass (accesses it does not instrument, e.g. in the two .S files, are invisible), our runtime's happens-before model (C11: mutex, atomics, thread create/exit), glibc. Seeded search over schedules, not exhaustive; hardware memory-model effects beyond C11 happens-before are out of reach.",
    technique="deterministic simulation: seeded thread scheduler over real threads + own happens-before race detector on the TSan compiler ABI + sequential reference model"),
  "C18": dict(engine="c18_rng", category="exploration", design_ref="DESIGN.md section 6",
-   text="Seeded deterministic simulation of the randomness seam. Plans of 1-20 generating operations (every *_keygen found in the public headers, key pairs, secretstream header, sealed boxes, pwhash/scrypt strings, random points and scalars, uniform/random/buf/buf_deterministic, stir, close) share one byte stream served either by a scripted randombytes_implementation or by a simulated kernel (getrandom, or /dev/urandom after ENOSYS, with EINTR/EAGAIN/short reads) under the real built-in default source. Exact oracle for randombytes_uniform with draws placed at 2^32 mod n +-1, exact reference for buf_deterministic, documented identity for keygens; for every other secret: enough bytes requested, identical result when the same bytes are replayed under different ambient values (time, pid, getrandom, arc4random ...) and buffer pre-fill, and a different result when one served bit of the secret is flipped.",
+   text="Seeded deterministic simulation of the randomness seam. Plans of 1-20 generating operations (every *_keygen found in the public headers, key pairs, secretstream header, sealed boxes, pwhash/scrypt strings, random points and scalars, uniform/random/buf/buf_deterministic, stir, close) share one byte stream served either by a scripted randombytes_implementation, or by a simulated kernel (getrandom, or /dev/urandom after ENOSYS, with EINTR/EAGAIN/short reads, EOF/EIO and a descriptor table) under the real built-in default source, or by that kernel feeding the opt-in internal generator (getentropy or device fallback). Exact oracle for randombytes_uniform with draws placed at 2^32 mod n +-1, exact reference for buf_deterministic, documented identity for keygens; for every other secret: enough bytes requested, identical result when the same bytes are replayed under different ambient values (time, pid, getrandom, arc4random ...) and buffer pre-fill, and a different result when one served bit of the secret is flipped.",
    note="Trusted: the library's own deterministic functions used for self-consistency of key pairs / sealed boxes / hash strings, the harness-side ChaCha20 (RFC 8439 vectors checked at start-up), the guarded CPU-mask hook. Sampling, not proof. A generator that derives its secret differently from the same source bytes is not flagged (only keygens are pinned to their documented behaviour).",
    technique="deterministic simulation: scripted entropy source / simulated kernel with syscall fault injection, replay + perturbation oracles"),
  "C20": dict(engine="c20_oom", category="fault_enumeration", design_ref="DESIGN.md section 8",
